@@ -348,6 +348,10 @@ PROPS = {
             'F + n is fed by the start of an n-byte token; every position is read from a token the guards determine) and O3 chains_complete (SQL() template vs documented pos/end chains, over '
             'Gen.SqlGo and Gen.PosDoc) are re-decided by the kernel; that a site really executes with the token its provenance names is the extracted fact, not a theorem '
             '(MF.Props.C05.offset_meaning says what follows once it holds)',
+            'hand-written model MF/Model/Stmt2.lean of the DML part of parser.go (ParseDML/ParseDMLs/ParseStatement/ParseStatements on DML, parseStatements, parseDML, parseDMLInternal, parseInsert, '
+            'parseValuesInput, parseValuesRow, parseDefaultExpr, parseDelete, parseUpdate, parseUpdateItem, parseIdentOrPath, tryParseAsAlias, parseWhere, parseCommaSeparatedList; fragment: no hint, no THEN RETURN, '
+            'VALUES input only, expression slots inside M1), generic in the expression parser; tied to the four entry points by the DML channel (every field and position, Pos()/End() of every node, SQL()); '
+            'specification MF/Spec/DMLGrammar.lean (G_DML written from the doc comments of ast/ast.go, expression slots abstract: yields of table-grouped normal forms, the vocabulary of C07)',
             'no Lean model of the other productions of parser.go: the predicate runs the real entry points'],
         "assumptions": ['proved for the expression fragment only (expr_positions); the other productions of parser.go are not modelled',
             "proved for the ParseType entry point (model lexer + model parser, every accepted input): every node starts and ends on a token boundary ('>>'/'<>' counted as two one-byte "
@@ -412,7 +416,7 @@ PROPS = {
     },
     "C08": {
         "module": 'MF.Props.C08Types',
-        "module_extra": ['MF.Props.C08TypeGo', 'MF.Props.C08Query'],  # C08Query = Task X: the SELECT core (ParseQuery / ParseStatement)
+        "module_extra": ['MF.Props.C08TypeGo', 'MF.Props.C08Query', 'MF.Props.C08DML'],  # C08Query = Task X: the SELECT core (ParseQuery / ParseStatement)
         "theorems": ['MF.Props.C08.simpleTypes_translated', 'MF.Props.C08.parseType_dispatch_translated', 'MF.Props.C08.parseType_model_dispatch',
             'MF.Props.C08.type_sound',
             'MF.Props.C08.type_sound_top',
@@ -423,6 +427,15 @@ PROPS = {
             'MF.Props.C08.fuel_irrelevant',
             'MF.Props.C08.ex_parse',
             'MF.Props.C08.ex_typeD',
+            # Task S (DML fragment)
+            'MF.Props.C08.dml_sound',
+            'MF.Props.C08.dml_sound_top',
+            'MF.Props.C08.dml_complete',
+            'MF.Props.C08.dml_complete_top',
+            'MF.Props.C08.dml_unique',
+            'MF.Props.C08.dml_entry_points_agree',
+            'MF.Props.C08.dml_ex_derivable',
+            'MF.Props.C08.dml_ex_agree',
             # Task X
             'MF.Props.C08.query_sound',
             'MF.Props.C08.query_sound_top',
@@ -437,8 +450,9 @@ PROPS = {
             'MF.Props.C08.queryD0_sub',
             'MF.Props.C08.complete_needs_castfree',
             'MF.Props.C08.trailing_comma_placement'],
-        "channels": ['TREE', 'TYPE', 'EXPR', 'QUERY'],
-        "channel_accepts": {"TYPE": "MF.Props.C08.type_sound_top: an accepted token list is a derivation of the documented type grammar G_T",
+        "channels": ['TREE', 'TYPE', 'EXPR', 'QUERY', 'DML'],
+        "channel_accepts": {"DML": "MF.Props.C08.dml_sound_top: a token list accepted by the DML model is a sentence of the documented DML grammar G_DML",
+                            "TYPE": "MF.Props.C08.type_sound_top: an accepted token list is a derivation of the documented type grammar G_T",
                             "QUERY": "MF.Props.C08.query_sound_top: an accepted token list is a derivation of the documented grammar G_Q of the SELECT core",
                             "EXPR": "MF.Props.C07.top_sound: an accepted token list is the yield of a tree grouped by the GoogleSQL operator table"},
         "pred": True,
@@ -455,7 +469,11 @@ PROPS = {
             'ast/sql.go; tied to memefish.ParseQuery and memefish.ParseStatement by the QUERY channel (every field and position, Pos()/End() of every node, SQL(); token-level OUTSIDE rule shared with '
             'the harness); specification MF/Spec/QueryGrammar.lean (G_Q written from the doc comments of ast/ast.go, token descriptors, yield of a tree)',
             'no Lean model of the other productions of parser.go: the predicate runs the real entry points'],
-        "assumptions": ['proved for the SELECT core (model of ParseQuery / ParseStatement, fragment M3: SELECT [ALL|DISTINCT] items [,] [FROM path [[AS] alias]] [WHERE] [GROUP BY] [HAVING] [ORDER BY … [ASC|DESC]] '
+        "assumptions": ['proved for the DML fragment M2 (model): soundness w.r.t. G_DML with the derivation tree (dml_sound, dml_sound_top), completeness for ALL derivations in eventual-fuel form '
+            '(dml_complete, dml_complete_top; side condition NoCast inherited from C07: no token reads as the unquoted identifiers SAFE_CAST / REPLACE_FIELDS; the statement must be followed by a '
+            'token that ends it), unambiguity (dml_unique), and agreement of the statement entry points with the DML entry points (dml_entry_points_agree); the expression slots go through '
+            'MF.Props.C07.parse_sound / parse_complete as black boxes; hints, THEN RETURN and sub-query input are outside the fragment (the model answers outside, the channel does not compare)',
+            'proved for the SELECT core (model of ParseQuery / ParseStatement, fragment M3: SELECT [ALL|DISTINCT] items [,] [FROM path [[AS] alias]] [WHERE] [GROUP BY] [HAVING] [ORDER BY … [ASC|DESC]] '
             '[LIMIT n [OFFSET m]], expressions in M1): an accepted token list is the yield of the returned tree and that yield is derivable in the documented grammar G_Q (query_sound, query_sound_top); '
             'on a token list starting with SELECT, ParseStatement answers exactly what ParseQuery answers, for every fuel and every kind of answer (query_entry_points_agree); every other query form is outside the model '
             '(explored only)',
@@ -477,16 +495,21 @@ PROPS = {
     },
     "C11": {
         "module": "MF.Props.C11",
-        "module_extra": ["MF.Props.C11Lists", "MF.Props.C11State"],
+        "module_extra": ["MF.Props.C11Lists", "MF.Props.C11State", "MF.Props.C11DML"],
         "theorems": ["MF.Props.C11.eof_sites", "MF.Props.C11.eof_sites_elsewhere", "MF.Props.C11.parser_state",
                      "MF.Props.C11.lists_compose", "MF.Props.C11.parseStatements_eq", "MF.Props.C11.segments_pieces", "MF.Props.C11.pieces_lex",
-                     "MF.Props.C11.split_pieces_lex", "MF.Props.C11.lex_prefix", "MF.Props.C11.compose", "MF.Props.C11.lexAll_WF"],
-        "channels": ["TREE", "SPLIT"],
+                     "MF.Props.C11.split_pieces_lex", "MF.Props.C11.lex_prefix", "MF.Props.C11.compose", "MF.Props.C11.lexAll_WF",
+                     "MF.Props.C11.dml_local", "MF.Props.C11.dml_lists_compose", "MF.Props.C11.dml_parseStatements_eq", "MF.Props.C11.dml_segment",
+                     "MF.Props.C11.parseDMLStmt_accepts", "MF.Props.C11.dml_compose_model", "MF.Props.C11.dml_lists_agree",
+                     "MF.Props.C11.dml_coreInv", "MF.Props.C11.dml_compose",
+                     "MF.Props.C11.dml_example_lists", "MF.Props.C11.dmlSeg_accepted", "MF.Props.C11.dml_example_model", "MF.Props.C11.dml_example_compose"],
+        "channels": ["TREE", "SPLIT", "DML"],
         "pred": True,
         "level": "proof",
         "trusted_base": ["translator tools/extract/parserfacts.go (go/ast, purely syntactic): the call graph, defer/recover shapes, Bad* literal sites, p.errors assignments, <eof> tests, token-field uses, package variables of parser.go, parse_helpers.go, lexer.go, split.go are REGENERATED from /repo on every run (lean/MF/Gen/ParserFacts.lean) and the static conditions re-decided by the kernel", "abstraction MF/Model/Recovery.lean: only *Error panics are modelled (run-time panics are explored by the predicate under recover), calls leaving the four files neither raise *Error nor call back, a Part without recognised statement structure is read flow-insensitively (any order of its events)", "hand-written model MF/Model/Split.lean of split.go (SPLIT channel)"],
         "assumptions": ["proved over the regenerated facts: no production treats <eof> differently from ';' (the only '== <eof>' test in a production is the trailing-comma test of parseSelectResults, which lists ';' beside it; every other test is a '!= <eof>' loop guard) — the structural reason a statement parses alike before ';' and before end of input",
                         "proved for every input (model of the parseStatements loop, of the lexer and of the splitter): for ANY statement parser P that is Local (reads nothing behind the terminator; ';' and <eof> interchangeable) the list entry point succeeds iff P succeeds on every token-containing raw statement, with the same results in order (lists_compose), the segments are exactly the splitter's pieces (segments_pieces), and lexing a piece on its own, shifted to its offset, gives exactly the tokens the whole input has in that range with the same positions (pieces_lex); compose puts the three together",
+                        "proved for the DML fragment M2 (model MF/Model/Stmt2.lean, tied to ParseDML / ParseDMLs / ParseStatement / ParseStatements by the DML channel): the model of ParseDMLs returns the trees l iff the model of ParseDML returns l[i] on the i-th token-containing ';'-free segment followed by <eof> (dml_compose_model: proved directly for the model's own transcription stmtsLoop of the parseStatements loop; hypothesis: no token reads as unquoted SAFE_CAST / REPLACE_FIELDS, the fragment boundary of M1); the modelled DML statement parser, read as a total statement parser with an error flag (accept = the model answers ok with some fuel, the statement is followed by ';' or <eof>, no consumed token reads as unquoted SAFE_CAST / REPLACE_FIELDS; otherwise error and skip to the terminator), IS Local (dml_local), so the abstract theory applies to it (dml_lists_compose, dml_parseStatements_eq), acceptance of a segment is derivability from the documented grammar G_DML (dml_segment), and the abstract loop stmtLoop and the model's loop accept the same lists with the same trees (dml_lists_agree); it looks at tokens only through tokCore (dml_coreInv), hence the end-to-end statement with the lexer and the splitter holds for it (dml_compose: ParseDMLs on the tokens of buf = all-or-nothing of ParseDML, lexer included, on every token-containing raw statement of SplitRawStatements)",
                         "NOT proved: that memefish's parseStatement IS Local (it reads nothing after the terminator and keeps no state between statements): explored by the predicate on lists of 1..4 and of 260/1200 statements (partial)"],
     },
     "C16": {
